@@ -138,3 +138,25 @@ Example C20_batches_partition_example :
   batch_indices [1; 4; 3; 0; 2; 6; 5] 3 = Some [[1; 4; 3]; [0; 2; 6]]
   /\ Permutation [1; 4; 3; 0; 2; 6; 5] (seq 0 7).
 Proof. exact batches_partition_example. Qed.
+
+(* attributes assigned on an existing Stopper instance: every method follows the CURRENT values *)
+Theorem C20_stop_rule_current_attributes : forall s ops i h,
+  let s' := apply_ops s ops in
+  (1 <= patience s')%nat -> (patience s' <= length h)%nat -> (i < length h)%nat ->
+  stop_now s' i h = Some (rule s' i h)
+  /\ forall q, rtol (apply_ops s (ops ++ [SetRtol q])) = q.
+Proof. exact stop_rule_current. Qed.
+Print Assumptions C20_stop_rule_current_attributes.
+
+Theorem C20_assigned_attributes_last_wins : forall ops s,
+  apply_ops s ops = mkStopper (last_set get_mi ops (max_iter s)) (last_set get_p ops (patience s))
+                              (last_set get_at ops (atol s)) (last_set get_rt ops (rtol s)).
+Proof. exact apply_ops_fields. Qed.
+Print Assumptions C20_assigned_attributes_last_wins.
+
+Example C20_stop_rule_current_example :
+  let s := apply_ops (mkStopper 30 5 (1 # 1000) 0) [SetRtol (1 # 2); SetAtol 0; SetPatience 2; SetMaxIter 8] in
+  s = mkStopper 8 2 0 (1 # 2)
+  /\ stop_now s 3 [8; 6; 4; 3; 0; 0; 0; 0]%Q = Some true
+  /\ stop_now (mkStopper 8 2 0 0) 3 [8; 6; 4; 3; 0; 0; 0; 0]%Q = Some false.
+Proof. exact stop_rule_current_example. Qed.
